@@ -512,10 +512,46 @@ def _argwhere_flat(t):
     return t
 
 
+def _mentions_term(t, sub):
+    if t == sub:
+        return True
+    return isinstance(t, Term) and any(_mentions_term(x, sub) for x in t.args if isinstance(x, (Term, tuple))) if not isinstance(t, tuple) else any(_mentions_term(x, sub) for x in t)
+
+
+def _sorted_tail(z):
+    """a[count(s >= c):] for a descending-sorted vector s (the singular values LAPACK returns) selects the entries
+    with s < c: the mask `s < c` (likewise `>` / `<=`); None if z is not of that form"""
+    if not (isinstance(z, Term) and z.op == "slice" and len(z.args) == 3 and _is_none_t(z.args[1]) and _is_none_t(z.args[2])):
+        return None
+    lo = z.args[0]
+    while isinstance(lo, Term) and lo.op == "int" and len(lo.args) == 1:
+        lo = lo.args[0]
+    if not (isinstance(lo, Term) and lo.op == "count" and len(lo.args) == 1 and isinstance(lo.args[0], Term) and len(lo.args[0].args) == 2):
+        return None
+    c = lo.args[0]
+    a_, b_ = c.args
+    def desc(t_):
+        return isinstance(t_, Term) and t_.op == "svd_S"
+    if c.op == "le" and desc(b_):      # c <= s
+        return Term("lt", b_, a_)
+    if c.op == "ge" and desc(a_):      # s >= c
+        return Term("lt", a_, b_)
+    if c.op == "lt" and desc(b_):      # c < s
+        return Term("le", b_, a_)
+    if c.op == "gt" and desc(a_):      # s > c
+        return Term("le", a_, b_)
+    return None
+
+
 def _canon_idx_term(idx):
     """index terms modulo: flatnonzero(mask) used as an index == the mask; trailing full slices"""
     if not isinstance(idx, Term):
         return idx
+    st_ = _sorted_tail(idx)
+    if st_ is not None:
+        return st_
+    if idx.op == "tuple" and len(idx.args) == 2 and _term_full_slice(idx.args[0]) and _sorted_tail(idx.args[1]) is not None:
+        idx = Term("tuple", idx.args[0], _sorted_tail(idx.args[1]))
     idx = _argwhere_flat(idx)
     if idx.op == "tuple":
         idx = Term("tuple", *[_argwhere_flat(z) for z in idx.args])
@@ -728,6 +764,10 @@ def _mk_where(c, x, y):
         return P_atom(x) if isinstance(x, Node) else P_const(x)
     if c is EYE:
         return P_atom(A("fill_diagonal", y, x))  # where(eye, c, M): M with its diagonal set to c
+    if isinstance(y, Node) and y.op == "store" and len(y.kids) == 3 and (y.kids[2] is x or y.kids[2] == x) and isinstance(x, Node) and x.op in ("sym", "dim") and not _mentions(c, y.kids[0]):
+        # where(m, v, A with A[i] = v) = where(m, v, A) with [i] = v: one scalar written at the mask and at i, in either order
+        inner = wrap(_mk_where(c, x, y.kids[0]))
+        return P_atom(A("store", inner, y.kids[1], x))
     return P_atom(A("where3", c, x, y))
 
 
@@ -915,6 +955,13 @@ class Normalizer:
             return P_atom(A("phi", self.freeze(a[0]), wrap(x), wrap(y)))
         if op == "nonzero1" and _setdiff_pattern(t) is not None:
             return self.nf(_setdiff_pattern(t))
+        if op == "nonzero1" and len(a) == 1 and isinstance(a[0], Term):
+            # the positions of an all-true vector of extent n: arange(n)
+            m_ = a[0]
+            while m_.op == "astype" and m_.args and isinstance(m_.args[0], Term) and m_.args[1] == "bool":
+                m_ = m_.args[0]
+            if (m_.op == "ones" and len(m_.args) == 1 and m_ is not a[0]) or (m_.op == "full" and len(m_.args) == 2 and isinstance(m_.args[0], Term) and m_.args[0].op == "const" and m_.args[0].args[0] is True):
+                return self.nf(Term("arange", m_.args[-1]))
         if op == "lstsq" and len(a) >= 2:
             # the minimum-norm least-squares solution of A Z = B is pinv(A) @ B (same relative cut-off)
             return p_matmul(P_atom(A("pinv", self.freeze(a[0]), *[self.freeze(x) for x in a[2:]])), self.nf(a[1]))
@@ -1007,6 +1054,9 @@ class Normalizer:
             return P_atom(A("getitem", wrap(pb), fi))
         if op == "store":
             base, idx, val = a
+            # a region written twice keeps the second value: (A with [i] = v1) with [i] = v2  is  A with [i] = v2
+            while isinstance(base, Term) and base.op == "store" and len(base.args) == 3 and base.args[1] == idx:
+                base = base.args[0]
             # b[:k] = [e0, ..., e_{k-1}]  is  b[0] = e0; ...; b[k-1] = e_{k-1}
             if isinstance(idx, Term) and idx.op == "slice" and _is_none_t(idx.args[0]) and _is_none_t(idx.args[2]) and isinstance(idx.args[1], Term) and idx.args[1].op == "const" and isinstance(val, Term) and val.op == "list" and isinstance(idx.args[1].args[0], (int, Fraction)) and not isinstance(idx.args[1].args[0], bool) and idx.args[1].args[0] == len(val.args) and 0 < len(val.args) <= 8:
                 t2 = base
@@ -1047,7 +1097,8 @@ class Normalizer:
             # the sign convention is fixed per component: it commutes with re-ordering the components of
             # both factors in the same way (columns of U, rows of Vt)
             (ub, ui), (vb, vi) = a[0].args, a[1].args
-            if isinstance(ui, Term) and ui.op == "tuple" and len(ui.args) == 2 and _term_full_slice(ui.args[0]) and ui.args[1] == vi and isinstance(vi, Term) and vi.op == "slice" and vi == Term("slice", Term("const", None), Term("const", None), Term("const", Fraction(-1))):
+            if isinstance(ui, Term) and ui.op == "tuple" and len(ui.args) == 2 and _term_full_slice(ui.args[0]) and ui.args[1] == vi and isinstance(vi, Term) and vi.op == "slice" and (vi == Term("slice", Term("const", None), Term("const", None), Term("const", Fraction(-1))) or (_is_none_t(vi.args[0]) and _is_none_t(vi.args[2]))):
+                # (also with the leading k components kept: each component's sign is decided from its own column)
                 inner = Term(op, ub, vb)
                 return self.nf(Term("getitem", inner, ui if op == "svd_flip_u" else vi))
         if op == "diagof" and len(a) == 1:
@@ -1083,7 +1134,22 @@ class Normalizer:
         if op == "sorted" and len(a) == 1:
             return self.nf(Term("sort", a[0]))  # the sorted values (as a list or as an array)
         if op == "where3" and len(a) == 3:
-            return _mk_where(self.freeze(a[0]), self.freeze(a[1]), self.freeze(a[2]))
+            # inside the branch taken where c holds, a nested where(c, p, q) is p (and q in the other branch)
+            c_ = a[0]
+            def _prune(t_, keep):
+                if not isinstance(t_, Term):
+                    return t_
+                if t_.op == "where3" and len(t_.args) == 3 and t_.args[0] == c_:
+                    return _prune(t_.args[1 if keep else 2], keep)
+                if t_.op not in ("add", "sub", "mul", "div", "pow", "neg", "sqrt", "abs", "exp", "log", "smul", "sdiv", "round", "where3", "astype", "cast", "lt", "le", "gt", "ge", "eq", "ne", "bitand", "bitor", "invert", "minimum", "maximum"):
+                    return t_  # only elementwise operations carry the condition entry by entry
+                new_args = tuple(_prune(x_, keep) if isinstance(x_, Term) else x_ for x_ in t_.args)
+                return t_ if all(n_ is o_ for n_, o_ in zip(new_args, t_.args)) else Term(t_.op, *new_args)
+            a1_, a2_ = _prune(a[1], True), _prune(a[2], False)
+            if isinstance(a2_, Term) and a2_.op == "store" and len(a2_.args) == 3 and a2_.args[2] == a1_ and isinstance(a1_, Term) and a1_.op in ("sym", "const", "dim") and not _mentions_term(a[0], a2_.args[0]):
+                # where(m, v, A with A[i] = v) = (where(m, v, A)) with [i] = v : the same scalar written at the mask and at i
+                return self.nf(Term("store", Term("where3", a[0], a1_, a2_.args[0]), a2_.args[1], a1_))
+            return _mk_where(self.freeze(a[0]), self.freeze(a1_), self.freeze(a2_))
         if op == "comp" and len(a) >= 3 and isinstance(a[2], Term):
             # [k * e(x) for x in xs] = k * [e(x) for x in xs] for a factor k that does not vary with x
             pe = self.nf(a[2])
